@@ -106,6 +106,10 @@ class DiGraph:
         else:
             dtype = bool
         self.csgraph = sparse.csr_matrix(adj_matrix, dtype=dtype)
+        # Explicitly stored zeros are not edges
+        if self.csgraph.nnz != self.csgraph.count_nonzero():
+            self.csgraph = self.csgraph.copy()
+            self.csgraph.eliminate_zeros()
 
         m, n = self.csgraph.shape
         if n != m:
